@@ -15,7 +15,7 @@ RULE = ('1-3 stream transfers sharing a manager (uploads from seekable / non-see
         'body read, incl. runs where later parts are retried while the lowest part is held) <= window parts + pending writes + one '
         'chunk per request/IO thread; pending destination writes (counting IO executor) <= max_io_queue_size; evaluated on the '
         'fault/cancel-free prefix of each run; thorough adds real-size (1 MiB chunk) runs with a tracemalloc peak as a coarse '
-        'cross-check; non-trivial = a stream transfer ran multipart/ranged and a monitor evaluated; distinct = (shape, interleaving '
+        'cross-check; also (whole run, incl. after faults/cancels): request-stage tasks holding an in-memory upload body queued-or-running at once <= max_in_memory_upload_chunks, with a trouble-midway family; non-trivial = a stream transfer ran multipart/ranged and a monitor evaluated; distinct = (shape, interleaving '
         'signature)')
 ASSUMPTIONS = ['measured quantities are lower bounds of the real buffered amounts (a body counts until its request returns)']
 CASE_TIMEOUT = 180.0
